@@ -1,4 +1,5 @@
 import re
+import threading
 from configparser import ConfigParser
 from io import StringIO
 from warnings import warn
@@ -1870,6 +1871,10 @@ class CryptContext:
         return hash
 
 
+#: lock serializing LazyCryptContext initialization
+_lazy_init_lock = threading.RLock()
+
+
 class LazyCryptContext(CryptContext):
     """CryptContext subclass which doesn't load handlers until needed.
 
@@ -1928,17 +1933,28 @@ class LazyCryptContext(CryptContext):
         self._lazy_kwds = kwds
 
     def _lazy_init(self):
-        kwds = self._lazy_kwds
-        if "onload" in kwds:
-            onload = kwds.pop("onload")
-            kwds = onload(**kwds)
-        del self._lazy_kwds
-        super().__init__(**kwds)
-        self.__class__ = CryptContext
+        # NOTE: other threads making their first call block here until the thread
+        #       doing the initialization is done (the lock is reentrant, so attribute
+        #       access from within CryptContext.__init__() passes straight through).
+        with _lazy_init_lock:
+            if not isinstance(self, LazyCryptContext):
+                # another thread finished initialization (and switched our class)
+                # while we waited for the lock
+                return
+            kwds = self._lazy_kwds
+            if kwds is None:
+                # being initialized further up this thread's stack
+                return
+            if "onload" in kwds:
+                onload = kwds.pop("onload")
+                kwds = onload(**kwds)
+            del self._lazy_kwds
+            super().__init__(**kwds)
+            self.__class__ = CryptContext
 
     def __getattribute__(self, attr):
-        if (
-            not attr.startswith("_") or attr.startswith("__")
-        ) and self._lazy_kwds is not None:
-            self._lazy_init()
+        # NOTE: this method is only in effect until _lazy_init() has switched the class
+        if not attr.startswith("_") or attr.startswith("__"):
+            # NOTE: not looked up via self -- another thread may switch our class at any time
+            LazyCryptContext._lazy_init(self)
         return object.__getattribute__(self, attr)
